@@ -161,7 +161,7 @@ func concrete(m string, dataID string, pick int) []byte {
 		var w int
 		switch p[2] {
 		case "lt1":
-			w = []int{500, 1, 999, 0}[pick%4]
+			w = []int{500, 1, 999, 2}[pick%4]
 		case "mid":
 			w = []int{5000, 1000, 29999}[pick%3]
 		case "ge30":
